@@ -809,11 +809,14 @@ class _ClassConsts(ast.NodeTransformer):
 
     def __init__(self, prog, cls):
         self.prog, self.cls = prog, cls
-        self.stored = {n.attr for m in prog.modules.values() for n in ast.walk(m.tree)
-                       if isinstance(n, ast.Attribute) and isinstance(n.ctx, (ast.Store, ast.Del))}
-        self.stored |= {a.value for m in prog.modules.values() for n in ast.walk(m.tree)
-                        if isinstance(n, ast.Call) and isinstance(n.func, ast.Name) and n.func.id in ("setattr", "delattr")
-                        for a in n.args[1:2] if isinstance(a, ast.Constant)}
+        if "_stored_attrs" not in prog.__dict__:
+            st = {n.attr for m in prog.modules.values() for n in ast.walk(m.tree)
+                  if isinstance(n, ast.Attribute) and isinstance(n.ctx, (ast.Store, ast.Del))}
+            st |= {a.value for m in prog.modules.values() for n in ast.walk(m.tree)
+                   if isinstance(n, ast.Call) and isinstance(n.func, ast.Name) and n.func.id in ("setattr", "delattr")
+                   for a in n.args[1:2] if isinstance(a, ast.Constant)}
+            prog._stored_attrs = st
+        self.stored = prog._stored_attrs
 
     def visit_Attribute(self, node):
         self.generic_visit(node)
